@@ -14,6 +14,7 @@ EXPLANATION = (
     "global map read after all ranks' symbols were added, no narrowing cast); ordered-collection rule (pool.map paired with the rank list by zip; no unordered "
     "primitive); id-opacity scan: no order-sensitive or arithmetic use of an encoded name/cat column anywhere in hta outside a frozen, justified table. NOT decided: "
     "delivery guarantees of multiprocessing, hash-seed effects inside pandas."
+    " Later additions: rank/file association, derived Series views refreshed by length, per-file encoding through the table's id map, no module-level state, no id truthiness anywhere in hta."
 )
 ST = "hta.common.trace_symbol_table"
 TM = "hta.common.trace"
